@@ -89,8 +89,12 @@ class code1:
         # a: alpha variation
         # h: histogram affected by modifier
         # b: bin of histogram
+        # |alpha| written as a selection so that automatic differentiation returns a
+        # one-sided derivative at alpha = 0 (d|alpha|/dalpha = 0 there is not one)
         exponents = tensorlib.einsum(
-            'sa,shb->shab', tensorlib.abs(alphasets), self.broadcast_helper
+            'sa,shb->shab',
+            tensorlib.where(alphasets > 0, alphasets, -alphasets),
+            self.broadcast_helper,
         )
         masks = tensorlib.astensor(
             tensorlib.einsum(
